@@ -486,3 +486,26 @@ def flag_guards(fb, b, bb, field, loop_next=True):
                 vals.add(ep if pol > 0 else (None if ep is None else not ep))
         out.append((vals.pop() if len(vals) == 1 else None, src))
     return out
+
+
+def option_edges(body, sites, which):
+    """switch edges (src, dst, label) taken exactly when the Option returned by one of the call `sites` (a map lookup) is `which`
+    ('Some' / 'None'). The result is followed through copies, as_ref / cloned / deref style calls."""
+    bbs = {s.bb for s in sites}
+    out = []
+    for (s, d, lab, t) in cfg.switch_edges(body):
+        desc = cfg.describe_operand(body, t['discr'])
+        if desc['k'] != 'discr' or not (desc.get('adt') or '').endswith('option::Option'):
+            continue
+        pd = cfg.strip_calls(body, cfg.describe_operand(body, {'cp': desc['pl']}))
+        if pd['k'] != 'call' or pd.get('bb') not in bbs:
+            continue
+        names = dict((v, n) for v, n in (desc.get('variants') or []))
+        tested = [x[0] for x in t['targets']]
+        if lab[1] == 'otherwise':
+            vs = [n for v, n in (desc.get('variants') or []) if v not in tested]
+        else:
+            vs = [names.get(lab[1], lab[1])]
+        if vs == [which]:
+            out.append((s, d, lab))
+    return out
